@@ -7,10 +7,18 @@ import (
 )
 
 const c11Schema = `
-type Query { g(x: Int, y: Int): Int h(in: In, list: [Int]): Int s(x: String): String o: Obj }
+type Query { g(x: Int, y: Int): Int h(in: In, list: [Int]): Int hb(in: Bd): Int s(x: String): String o: Obj }
 type Obj { g(x: Int, y: Int): Int }
 input In { a: Int b: [Int] }
+input Bd { a: Int c: Int }
 `
+
+// C11Bd is the Go type the input type Bd is bound to (RegisterType): ggql
+// then hands the resolver a *C11Bd instead of a map.
+type C11Bd struct {
+	A int32
+	C int32
+}
 
 // c11Node echoes its arguments so that a response depends on what the
 // resolver was handed.
@@ -42,6 +50,11 @@ func (n *c11Node) Resolve(field *ggql.Field, args map[string]interface{}) (inter
 		return sumArg(args["x"])*7 + sumArg(args["y"]), nil
 	case "h":
 		return sumArg(args["in"])*11 + sumArg(args["list"]), nil
+	case "hb":
+		if bd, ok := args["in"].(*C11Bd); ok && bd != nil {
+			return bd.A*13 + bd.C, nil
+		}
+		return int32(-1), nil
 	case "s":
 		x, _ := args["x"].(string)
 		return x, nil
@@ -55,6 +68,7 @@ var c11Docs = []string{
 	"query A($v:Int){...F o{...G}} query B($v:Int){o{...G} g(y:$v)} fragment F on Query{g(y:$v)} fragment G on Obj{g(x:$v, y:1)}",
 	"query A($v:Int=4){g(x:$v)} query B($v:Int){__type(name:\"Obj\"){name} g(x:$v)}",
 	"query A($v:Int){a:g(x:$v) b:g(y:$v)} query B($v:Int){h(list:[$v])}",
+	"query A($v:Int){hb(in:{a:$v c:1})} query B($v:Int){hb(in:{c:$v})}", // input type bound to a Go struct
 }
 
 // C11_repeat: resolving a parsed executable again - other variables, the
@@ -65,6 +79,9 @@ func C11_repeat() {
 	root := ggql.NewRoot(&c11Node{})
 	if err := root.ParseString(c11Schema); err != nil {
 		panic("harness schema rejected: " + err.Error())
+	}
+	if root.RegisterType(&C11Bd{}, "Bd") != nil {
+		panic("harness: RegisterType refused")
 	}
 	exe, err := root.ParseExecutableString(doc)
 	sym.Assert(err == nil, "document accepted")
